@@ -653,6 +653,68 @@ class C15Plan(RunPlan):
         return c.get("C15.roundtrip.checked", 0) + c.get("C15.load.checked", 0) > 0
 
 
+class C13Plan(RunPlan):
+    prop = "C13"
+    engine = "A"
+    quick_runs = 2500
+    thorough_runs = 150000
+    rule = ("one evaluation = one simulated history (<=60 ops) in a seeded boot configuration (all modules, single "
+            "modules, seeded import orders/subsets, with the boot tracer so that the sizes of shipped units are "
+            "known): units from the C13 space (registered prefix x registered unit x exponent, products of up to 3, "
+            "built in seeded multiplication orders) and quantities over them are rendered with str() and parsed back "
+            "- immediately and again later, after further definitions, aliases, late imports of unit modules and "
+            "adversarial definitions whose symbol equals <prefix symbol><unit symbol>; the parsed unit must have the "
+            "model normal form (same object; an equal named unit such as kg accepted by solved size), a quantity must "
+            "be equal; and groups of alternative spellings of one term list (^n / superscripts, * / dot / spaces, a/b "
+            "/ negative exponents, symbols / names) must parse to one object with the model normal form. Renderings "
+            "in the known classes (magnitude-emitted, symbol-less prefix, ambiguous text) are listed findings. "
+            "Non-trivial = >=1 round trip or spelling checked.")
+
+    def boots(self, tier, seed):
+        bs = std_boots(seed, 3 if tier == "quick" else 10)
+        if tier == "thorough":
+            bs += [{"imports": [m], "trace": False, "opt": False, "hashseed": 0} for m in ALL_MODULES]
+        return [dict(b, trace=True) for b in bs]
+
+    def params(self, tier):
+        return {"late_imports": list(ALL_MODULES), "faults": False}
+
+    def nontrivial(self, r):
+        c = r.get("counters", {})
+        return c.get("C13.roundtrip.checked", 0) + c.get("C13.spelling.checked", 0) + \
+            c.get("C13.sweep.checked", 0) > 0
+
+    def extra_checks(self, tier, seed, pool, findings):
+        boots = self.boots(tier, seed)
+        res = pool.run([(b, {"engine": "BOOT", "what": "c13_sweep", "timeout": 600}) for b in boots])
+        violations, total, ok = [], 0, 0
+        per_class = {}
+        for b, r in zip(boots, res):
+            if "harness_error" in r:
+                raise driver.HarnessError(r["harness_error"])
+            total += r["counters"]["C13.sweep.checked"]
+            ok += r["counters"]["C13.sweep.ok"]
+            for k, v in r["counters"].items():
+                if k.startswith("C13/"):
+                    per_class[k] = per_class.get(k, 0) + v
+            for v in r["violations"]:
+                violations.append(dict(v, boot=b, request={"engine": "BOOT", "what": "c13_sweep", "timeout": 600}))
+        self.sweep_results = res
+        seen, uniq = set(), []
+        for v in violations:
+            if v["signature"] not in seen:
+                seen.add(v["signature"])
+                uniq.append(v)
+        return uniq, {"exhaustive_sweep": {"exhaustive": True, "boots": len(boots),
+                                           "prefix_x_unit_x_exponent_cases": total, "parsed_to_same_object": ok,
+                                           "by_class": per_class}}
+
+    def evidence(self, tier, seed, t0, tasks, results, by_sig, known_seen, st, **kw):
+        sweep = getattr(self, "sweep_results", None) or []
+        super().evidence(tier, seed, t0, tasks + [(tasks[0][0], {})] * len(sweep) if tasks else tasks,
+                         results + sweep, by_sig, known_seen, st, **kw)
+
+
 class C09Plan(RunPlan):
     prop = "C09"
     engine = "BOOT"
@@ -753,4 +815,4 @@ class C09Plan(RunPlan):
 
 
 PLANS = {"C20": C20Plan, "C19": C19Plan, "C08": C08Plan, "C04": C04Plan, "C05": C05Plan, "C07": C07Plan,
-         "C09": C09Plan, "C02": C02Plan, "C15": C15Plan}
+         "C09": C09Plan, "C02": C02Plan, "C15": C15Plan, "C13": C13Plan}
